@@ -28,7 +28,7 @@ def f32(x):
 
 
 AXES = dict(
-    n=[16, 8], shift=[(2, -1), (0, 0), (2, 0), (0, -1)], fill=[[1e-3], [1e-3, 2e-3], [1e-3, 0, 2e-3]], outstep=[2, 1, 3, 5], save=[1, 0, 2],
+    n=[16, 8, 15], shift=[(2, -1), (0, 0), (2, 0), (0, -1)], fill=[[1e-3], [1e-3, 2e-3], [1e-3, 0, 2e-3]], outstep=[2, 1, 3, 5], save=[1, 0, 2],
     rot=[1.0, 0.5, 1.375, 1.3, 0.7], imp=["collimator", "none", "csr"], track=[False, True], renorm=[0, -1, 2],
     ring=["default", "R=5.559,H=184,V=1.4e6,E=2.5e9", "pq=10,F=2.7e6"])
 IMP = {"none": ["-G", 0], "collimator": ["-G", -0.03, "--UseCSR", "false", "--CollimatorRadius", 0.002], "csr": ["-G", -0.03]}
